@@ -13,15 +13,18 @@ def main():
         i = a.index("--tier"); tier = a[i + 1]; del a[i:i + 2]
     if "--seed" in a:
         i = a.index("--seed"); seed = a[i + 1]; del a[i:i + 2]
-    ids, rel, old, new = a
+    ids, triples = a[0], a[1:]
+    assert len(triples) % 3 == 0, "usage: ID (file old new)+"
     tmp = tempfile.mkdtemp(prefix="mut-")
     try:
         shutil.copytree("/repo/black_it", f"{tmp}/black_it")
-        p = f"{tmp}/{rel}"
-        s = open(p).read()
-        if s.count(old) != 1:
-            print(f"pattern occurs {s.count(old)} times in {rel}", file=sys.stderr); sys.exit(3)
-        open(p, "w").write(s.replace(old, new))
+        for k in range(0, len(triples), 3):
+            rel, old, new = triples[k:k + 3]
+            p = f"{tmp}/{rel}"
+            s = open(p).read()
+            if s.count(old) != 1:
+                print(f"pattern occurs {s.count(old)} times in {rel}", file=sys.stderr); sys.exit(3)
+            open(p, "w").write(s.replace(old, new))
         rc_all = []
         for pid in ids.split(","):
             env = dict(os.environ, VERIF_REPO=tmp, VERIF_SEED=seed, VERIF_NO_EVIDENCE="1", VERIF_REPLAY_DIR=tmp + "/replays")
